@@ -399,18 +399,39 @@ def _below_reaches_structure(ctx):
     ranks were re-arranged (Tensor.flattenRanks(depth=1) then fails while it
     registers the fibers, rank lists name the wrong ranks after a swap)."""
     f = ctx.method("Fiber", "updatePayloads")
+    def stores(lp_):
+        return [x for x in _walk(lp_.body) if isinstance(x, ast.Assign)
+                and isinstance(x.targets[0], ast.Subscript)
+                and text(x.targets[0].value).endswith(".payloads")]
     loops = [lp for lp in f.own_nodes() if isinstance(lp, ast.For)
-             and any(isinstance(x, ast.Continue) for x in _walk(lp.body))
-             and "payloads" in text(lp.iter)]
-    ctx.require(loops, "C09.R4: the payload walk of Fiber.updatePayloads (with its "
-                "skip of empty payloads) was not found")
+             and "payloads" in text(lp.iter) and stores(lp)]
+    ctx.require(loops, "C09.R4: the payload walk of Fiber.updatePayloads (the loop "
+                "that stores the callback's results) was not found")
     lp = loops[0]
     pv = None
     for n in ast.walk(lp.target):
         if isinstance(n, ast.Name):
             pv = n.id           # last name of the target: the payload
+    NEGOP = {"==": "!=", "!=": "==", "<": ">=", "<=": ">", "is": "is not", "is not": "is",
+             "in": "not in", "not in": "in"}
+
+    def neg(a):
+        if a[0] == "truth":
+            return ("truth", a[1], not a[2])
+        if a[0] in (">=", ">"):
+            return pat.A({">=": "<", ">": "<="}[a[0]], a[1], a[2])
+        return pat.A(NEGOP.get(a[0], a[0]), a[1], a[2]) if a[0] in NEGOP else a
+    skips = []      # (node, [ways of being skipped])
     for c in [x for x in _walk(lp.body) if isinstance(x, ast.Continue)]:
-        ways = pat.guard_dnf(ctx, f, c, stop=lp) or []
+        skips.append((c, pat.guard_dnf(ctx, f, c, stop=lp) or []))
+    if not skips:
+        # `if <cond>: payloads[i] = ..` -- skipped whenever a conjunct fails
+        for st in stores(lp):
+            for w in pat.guard_dnf(ctx, f, st, stop=lp) or []:
+                skips.append((st, [frozenset([neg(a)]) for a in w]))
+    ctx.require(skips, "C09.R4: Fiber.updatePayloads no longer skips any payload; "
+                "the rule about what may be skipped has nothing to look at")
+    for c, ways in skips:
         bad = []
         for w in ways:
             childless = any(
